@@ -6,6 +6,7 @@ import (
 	"fmt"
 	"os"
 	"sort"
+	"syscall"
 	"time"
 
 	"verif.local/h/core"
@@ -23,6 +24,10 @@ type check struct {
 var checks = map[string]*check{}
 
 func main() {
+	// the sandbox has no memory limit: cap the address space so that a runaway
+	// allocation in the code under test ends this process, not the machine
+	lim := syscall.Rlimit{Cur: 48 << 30, Max: 48 << 30}
+	syscall.Setrlimit(syscall.RLIMIT_AS, &lim)
 	if len(os.Args) < 2 {
 		fmt.Fprintln(os.Stderr, "usage: harness run|replay|list ...")
 		os.Exit(2)
